@@ -13,6 +13,7 @@ From Coq Require Import Bool String.
 From I18n Require Model.Handlers Generated.RaiseSites Proofs.Handlers.
 From I18n Require Model.Check Proofs.Check.
 From I18n Require Import Model.Tags.
+From I18n Require Lib.PySrc Generated.PluralsSrc Proofs.PluralsSrc.
 Import ListNotations.
 Local Open Scope Z_scope.
 
@@ -38,6 +39,20 @@ Print Assumptions C01_plural_parser_total.
 Theorem C01_check_plurals_total : forall inp c, check_plurals_core int_max_str_digits inp <> Crash c.
 Proof. exact check_plurals_core_no_crash. Qed.
 Print Assumptions C01_check_plurals_total.
+
+(* ... and this is a statement about the code of the working tree: Generated/PluralsSrc.v is the statement-by-statement
+   translation of the whole of Checker.check_plurals (and of gettext.parse_plural_forms / parse_plural_expression), regenerated on
+   every run (tools/gen/gen_plurals_src.py; tie lemmas in Proofs/PluralsSrc.v, the C07_source_tie theorems).  Run with the model's parser and
+   evaluators and the generated digit limit, on ANY check context, the translated method returns normally, or lets the
+   PluralFormsSyntaxError of a declaration of data/languages escape (excluded by C07_registry / the generator of RaiseSites.v);
+   no assertion fails, no unpacking, call of None, format_range or other operation raises. *)
+Theorem C01_source_tie_check_plurals_total :
+  forall (L G : Type) values language get_pf is_template file obsolete msgid_plural translated msgstr_plural,
+  let r := PluralsSrc.src_check_plurals
+             (Proofs.PluralsSrc.MW L G int_max_str_digits values language get_pf is_template file obsolete msgid_plural translated msgstr_plural) in
+  (exists tags pre, r = PySrc.SRet (tags, pre)) \/ r = PySrc.SRaise PySrc.XPluralForms.
+Proof. exact Proofs.PluralsSrc.src_check_plurals_total. Qed.
+Print Assumptions C01_source_tie_check_plurals_total.
 
 (* MO loader, through the except structure of Checker.check (C09) *)
 Theorem C01_mo_loader_total : forall asc dec f c, MoParser.checker_load asc dec f <> Crash c.
